@@ -357,10 +357,41 @@ def check_option_equivalence(ctx):
             valued += [(o['dest'], c) for c in o['choices']]
         elif o['type'] == 'int':
             valued += [(o['dest'], 1), (o['dest'], 7)]
-        elif o['type'] == 'bool':
+        elif o['type'] == 'bool' or (o['default'] is False and o['type'] not in (None, 'int', 'str')):
             valued += [(o['dest'], True)]
         else:
             valued += [(o['dest'], 'x')]
+    # the converter of a valued flag maps the text the user writes to the value format() would be given: bool("False") is
+    # True, so type=bool cannot express False.  A converter defined in the repository is interpreted on the spellings.
+    from .. import miniev as ME
+
+    def converter_ok(name):
+        if name in (None, 'int', 'str', 'float'):
+            return True, ''
+        if name == 'bool':
+            return False, 'type=bool: bool("False") is True'
+        fn = f.mod.funcs.get(name) if hasattr(f.mod, 'funcs') else None
+        if fn is None:
+            return None, f'converter {name} is not a function of {f.mod.relpath}'
+        ev = ME.Evaluator(ctx, fn.mod, None)
+        ev.effects = []
+        for text, want in (('False', False), ('True', True), ('false', False), ('true', True)):
+            try:
+                got = ME.run_function(ev, fn.node, {fn.params[0]: text})
+            except ME.Unsupported as x:
+                return None, f'{name}({text!r}) not interpretable: {x}'
+            if isinstance(got, ME.Raised):
+                continue      # rejecting a spelling is an argparse error, not a wrong value
+            if got is not want:
+                return False, f'{name}({text!r}) gives {got!r}'
+        return True, ''
+    for o in opts:
+        if o['action'] == 'store':
+            ok, why = converter_ok(o['type'])
+            ctx.ob('R19.8', f'argparse-type:{o["dest"]}', f'{f.mod.relpath}:{o["line"]}',
+                   f'the value of {o["flags"][-1]} is converted by a function that maps the text to the option value ({o["type"] or "str"})',
+                   ok, f'{why}, so `sqlformat {o["flags"][-1]} False` formats with {o["dest"]}=True while the corresponding '
+                   f'format(..., {o["dest"]}=False) does not')
     ctx.info['cli_boolean_flags'] = [o['dest'] for o in flags]
     ctx.info['cli_valued_flags'] = sorted({d for d, _ in valued})
 
